@@ -21,6 +21,7 @@ static int pathcmp(void *my_data, void *node_data);
 static int pidcmp(void *my_data, void *node_data);
 static int taskcmp(void *my_data, void *node_data);
 static int threshcmp(void *my_data, void *node_data);
+static void key_src(ev_src_t *src, m_src_types type, const void *src_data, m_src_flags flags, const void *userptr);
 
 /* Process functions */
 static ev_src_t *process_ps(ev_src_t *this, m_ctx_t *c, int idx, evt_priv_t *evt);
@@ -71,11 +72,11 @@ _Static_assert(sizeof(src_procs_map) / sizeof(*src_procs_map) == M_SRC_TYPE_END,
 static void src_priv_dtor(void *data) {
     ev_src_t *t = (ev_src_t *)data;
 
-    /* If a fd is deregistered for a RUNNING module, stop polling on it */
-    if (m_mod_is(t->mod, M_MOD_RUNNING)) {
-        M_MOD_CTX(t->mod);
-        poll_set_new_evt(&c->ppriv, t, RM);
-    }
+    /*
+     * Note: the source was already removed from the poll set when it left its module's registry
+     * (see rm_mod_src(), manage_srcs()): its module may be long gone when an event still
+     * referencing the source is finally destroyed.
+     */
 
     /* Properly manage autoclose flag */
     if (t->flags & M_SRC_FD_AUTOCLOSE) {
@@ -199,57 +200,106 @@ static ev_src_t *create_src(m_mod_t *mod, m_src_types type, process_cb proc,
     return src;
 }
 
-static int fdcmp(void *my_data, void *node_data) {
-    ev_src_t *src = (ev_src_t *)node_data;
-    int fd = *((int *)my_data);
+/*
+ * Compare functions: both arguments are event sources (ev_src_t *).
+ * Lookups by key go through key_src(), that fills a temporary source with the key.
+ * Three-way comparisons: differences would be truncated to int.
+ */
+#define M_CMP(a, b)     (((a) > (b)) - ((a) < (b)))
 
-    return fd - src->fd_src.fd;
+static int fdcmp(void *my_data, void *node_data) {
+    const ev_src_t *my = (const ev_src_t *)my_data;
+    const ev_src_t *src = (const ev_src_t *)node_data;
+
+    return M_CMP(my->fd_src.fd, src->fd_src.fd);
 }
 
 static int tmrcmp(void *my_data, void *node_data) {
-    ev_src_t *src = (ev_src_t *)node_data;
-    const m_src_tmr_t *its = (const m_src_tmr_t *)my_data;
+    const ev_src_t *my = (const ev_src_t *)my_data;
+    const ev_src_t *src = (const ev_src_t *)node_data;
 
-    return its->ns - src->tmr_src.its.ns;
+    int ret = M_CMP(my->tmr_src.its.ns, src->tmr_src.its.ns);
+    if (ret == 0) {
+        /* Library internal timers (batching, tokenbucket) never clash with user timers nor with each other */
+        ret = M_CMP(my->flags & M_SRC_INTERNAL, src->flags & M_SRC_INTERNAL);
+        if (ret == 0 && (my->flags & M_SRC_INTERNAL)) {
+            ret = M_CMP((uintptr_t)my->userptr, (uintptr_t)src->userptr);
+        }
+    }
+    return ret;
 }
 
 static int sgncmp(void *my_data, void *node_data) {
-    ev_src_t *src = (ev_src_t *)node_data;
-    const m_src_sgn_t *sgs = (const m_src_sgn_t *)my_data;
+    const ev_src_t *my = (const ev_src_t *)my_data;
+    const ev_src_t *src = (const ev_src_t *)node_data;
 
-    return sgs->signo - src->sgn_src.sgs.signo;
+    return M_CMP(my->sgn_src.sgs.signo, src->sgn_src.sgs.signo);
 }
 
 static int pathcmp(void *my_data, void *node_data) {
-    ev_src_t *src = (ev_src_t *)node_data;
-    const m_src_path_t *pt = (const m_src_path_t *)my_data;
+    const ev_src_t *my = (const ev_src_t *)my_data;
+    const ev_src_t *src = (const ev_src_t *)node_data;
 
-    return strcmp(pt->path, src->path_src.pt.path);
+    return strcmp(my->path_src.pt.path, src->path_src.pt.path);
 }
 
 static int pidcmp(void *my_data, void *node_data) {
-    ev_src_t *src = (ev_src_t *)node_data;
-    const m_src_pid_t *pid = (const m_src_pid_t *)my_data;
+    const ev_src_t *my = (const ev_src_t *)my_data;
+    const ev_src_t *src = (const ev_src_t *)node_data;
 
-    return pid->pid - src->pid_src.pid.pid;
+    return M_CMP(my->pid_src.pid.pid, src->pid_src.pid.pid);
 }
 
 static int taskcmp(void *my_data, void *node_data) {
-    ev_src_t *src = (ev_src_t *)node_data;
-    const m_src_task_t *tid = (const m_src_task_t *)my_data;
+    const ev_src_t *my = (const ev_src_t *)my_data;
+    const ev_src_t *src = (const ev_src_t *)node_data;
 
-    return tid->tid - src->task_src.tid.tid;
+    return M_CMP(my->task_src.tid.tid, src->task_src.tid.tid);
 }
 
 static int threshcmp(void *my_data, void *node_data) {
-    ev_src_t *src = (ev_src_t *)node_data;
-    const m_src_thresh_t *thr = (const m_src_thresh_t *)my_data;
+    const ev_src_t *my = (const ev_src_t *)my_data;
+    const ev_src_t *src = (const ev_src_t *)node_data;
 
-    long double my_val = (long double)thr->activity_freq
-                         + (long double)thr->inactive_ms;
-    long double their_val = (long double)src->thresh_src.thr.activity_freq
-                            + (long double)src->thresh_src.thr.inactive_ms;
-    return my_val - their_val;
+    int ret = M_CMP(my->thresh_src.thr.inactive_ms, src->thresh_src.thr.inactive_ms);
+    if (ret == 0) {
+        ret = M_CMP(my->thresh_src.thr.activity_freq, src->thresh_src.thr.activity_freq);
+    }
+    return ret;
+}
+
+/* Fill the identifying fields of a (temporary) source from user supplied source data, to look it up */
+static void key_src(ev_src_t *src, m_src_types type, const void *src_data, m_src_flags flags, const void *userptr) {
+    memset(src, 0, sizeof(*src));
+    src->type = type;
+    src->flags = flags;
+    src->userptr = userptr;
+    switch (type) {
+        case M_SRC_TYPE_PS:
+        case M_SRC_TYPE_FD:
+            src->fd_src.fd = *((const int *)src_data);
+            break;
+        case M_SRC_TYPE_TMR:
+            memcpy(&src->tmr_src.its, src_data, sizeof(m_src_tmr_t));
+            break;
+        case M_SRC_TYPE_SGN:
+            memcpy(&src->sgn_src.sgs, src_data, sizeof(m_src_sgn_t));
+            break;
+        case M_SRC_TYPE_PATH:
+            memcpy(&src->path_src.pt, src_data, sizeof(m_src_path_t));
+            break;
+        case M_SRC_TYPE_PID:
+            memcpy(&src->pid_src.pid, src_data, sizeof(m_src_pid_t));
+            break;
+        case M_SRC_TYPE_TASK:
+            memcpy(&src->task_src.tid, src_data, sizeof(m_src_task_t));
+            break;
+        case M_SRC_TYPE_THRESH:
+            memcpy(&src->thresh_src.thr, src_data, sizeof(m_src_thresh_t));
+            break;
+        default:
+            break;
+    }
 }
 
 static ev_src_t *process_ps(ev_src_t *this, m_ctx_t *c, int idx, evt_priv_t *evt) {
@@ -360,10 +410,9 @@ int deregister_ctx_src(m_ctx_t *c, ev_src_t **src) {
     return 0;
 }
 
-int register_mod_src(m_mod_t *mod, m_src_types type, const void *src_data,
-                         m_src_flags flags, const void *userptr) {
-    M_MOD_ASSERT(mod);
-    M_MOD_CONSUME_TOKEN(mod);
+/* Add a source to a module; used by the library itself too (pubsub pipe, batch and tokenbucket timers): no token is consumed */
+int add_mod_src(m_mod_t *mod, m_src_types type, const void *src_data,
+                m_src_flags flags, const void *userptr) {
     M_SRC_ASSERT_PRIO_FLAGS();
     
     M_ASSERT(type < M_SRC_TYPE_END);
@@ -383,18 +432,53 @@ int register_mod_src(m_mod_t *mod, m_src_types type, const void *src_data,
             if (ret == 0 && src->type == M_SRC_TYPE_TASK) {
                 ret = start_task(c, src);
             }
+            if (ret != 0) {
+                /* A refused registration leaves no trace: neither the source, nor effects on user owned resources */
+                ret = errno ? -errno : -EINVAL;
+                poll_set_new_evt(&c->ppriv, src, RM);
+                src->flags &= ~M_SRC_AUTOFREE;
+                if (!(flags & M_SRC_DUP)) {
+                    src->flags &= ~M_SRC_FD_AUTOCLOSE;
+                }
+                m_bst_remove(mod->srcs[type], src);
+            }
         }
-        return !ret ? 0 : -errno;
+        return ret;
     }
     m_mem_unref(src);
     return ret;
+}
+
+int register_mod_src(m_mod_t *mod, m_src_types type, const void *src_data,
+                         m_src_flags flags, const void *userptr) {
+    M_MOD_ASSERT(mod);
+    M_MOD_CONSUME_TOKEN(mod);
+
+    return add_mod_src(mod, type, src_data, flags, userptr);
+}
+
+/* Remove a source from a module, given its key; no token is consumed */
+int rm_mod_src(m_mod_t *mod, m_src_types type, const void *src_data,
+               m_src_flags flags, const void *userptr) {
+    M_PARAM_ASSERT(m_bst_len(mod->srcs[type]) > 0);
+
+    ev_src_t key;
+    key_src(&key, type, src_data, flags, userptr);
+    ev_src_t *src = m_bst_find(mod->srcs[type], &key);
+    if (!src) {
+        return -ENOENT;
+    }
+    /* Stop polling on it right now: its memory may outlive it, if any event still references it */
+    M_MOD_CTX(mod);
+    poll_set_new_evt(&c->ppriv, src, RM);
+    return m_bst_remove(mod->srcs[type], src);
 }
 
 int deregister_mod_src(m_mod_t *mod, m_src_types type, void *src_data) {
     M_MOD_ASSERT(mod);
     M_MOD_CONSUME_TOKEN(mod);
 
-    return m_bst_remove(mod->srcs[type], src_data);
+    return rm_mod_src(mod, type, src_data, 0, NULL);
 }
 
 int start_task(m_ctx_t *c, ev_src_t *src) {
